@@ -29,7 +29,15 @@ class C04(Prop):
         return [F.gen_case(rng, max_ops=8 if tier == "quick" else 10, type_changing=self.type_changing) for _ in range(n)]
 
     def corpus(self):
-        return [
+        # a column looked up by name, deleted from the data frame, and created afresh under the same name: what
+        # is said about the new column must not come from the old one (per-column lookup = positional list)
+        reborn = [{"names": ["a", "b"], "kinds": ["float", k2], "nrows": 2, "units": ["m", u2], "strict": True, "vseed": 60 + i,
+                   "ops": [{"op": "consult"}, {"op": "df_del", "pick": 0}, {"op": "consult"},
+                           {"op": how, "col": "a", "kind": "float"}, {"op": "consult"},
+                           {"op": "relabel", "pick": 1, "unit": "s"}, {"op": "consult"}]}
+                  for i, (k2, u2, how) in enumerate([("float", "kg", "df_set"), ("text", "text", "df_set"), ("float", "kg", "setitem"),
+                                                     ("bool", "onoff", "df_set")])]
+        return reborn + [
             {"names": ["a", "b", "c"], "kinds": ["float", "text", "bool"], "nrows": 2, "units": ["m", "text", "onoff"],
              "strict": True, "vseed": 1, "ops": [{"op": "p_select", "perm": 5, "keep": 3}, {"op": "consult"}]},
             {"names": ["a", "b"], "kinds": ["float", "text"], "nrows": 2, "units": ["m", "text"], "strict": True, "vseed": 2,
